@@ -1,6 +1,7 @@
 ------------------------ MODULE ParallelMap_OrderProofs ------------------------
-(* TLAPS proof that the Rust parallel map hands its results back in input order (C15, C03): Order holds for    *)
-(* EVERY thread count T >= 1, input length N, set of panicking items and drop position.                        *)
+(* TLAPS proof that the Rust parallel map hands its results back in input order (C15, C03) and never ends      *)
+(* normally before every input has been delivered (C07, C02): Order and NoSilentTruncation hold for EVERY      *)
+(* thread count T >= 1, input length N, set of panicking items and drop position (repaired code).              *)
 (* The inductive invariant describes where each worker's single outstanding item is: with c completed          *)
 (* receive/send cycles, worker w (counted cyclically from `now`) holds item c + 1 + Dist(w) - in its inbox,    *)
 (* in its hands, or in its outbox - as long as that item exists.                                               *)
@@ -26,6 +27,8 @@ OInv ==
     /\ out \in Seq(Nat)
     /\ cst \in {"idle", "send", "sendlast", "ended", "raised", "drop", "dropping", "joined"}
     /\ Order
+    /\ Len(out) <= N
+    /\ cst \in {"sendlast", "ended"} => Len(out) = N
     /\ (Live /\ Wn >= 1) =>
         /\ now \in W /\ rxalive
         /\ nxt = Avail + 1
@@ -83,7 +86,8 @@ LEMMA NextOInv == OInv /\ Inv /\ Inv' /\ [Next]_vars => OInv'
         /\ toW \in [W -> Seq(Nat)] /\ fromW \in [W -> Seq(Nat)] /\ witem \in [W -> Nat]
         /\ wst \in [W -> {"recv", "run", "exited", "panicked"}]
     BY LenProperties DEF Inv
-  <1>a. ASSUME ~Live', out' = out, cst' \in {"idle", "send", "sendlast", "ended", "raised", "drop", "dropping", "joined"}
+  <1>a. ASSUME ~Live', out' = out, cst' \in {"idle", "send", "sendlast", "ended", "raised", "drop", "dropping", "joined"},
+               cst' \in {"sendlast", "ended"} => Len(out) = N
         PROVE OInv'
     BY <1>a DEF OInv, Order, Live
   <1>b. ASSUME ~Live, cst' = cst, out' = out PROVE OInv'
@@ -94,11 +98,25 @@ LEMMA NextOInv == OInv /\ Inv /\ Inv' /\ [Next]_vars => OInv'
     <2>1. CASE Wn = 0
       <3>1. cst' = "ended" /\ out' = out
         BY <1>1, <2>1 DEF CRecv
-      <3> QED BY <3>1, <1>a DEF Live
+      <3>2. N = 0 /\ Len(out) = 0
+        BY <2>1, <1>t DEF Wn, OInv
+      <3> QED BY <3>1, <3>2, <1>a DEF Live
     <2>2. CASE Wn # 0 /\ fromW[now] = <<>>
       <3>1. cst' \in {"raised", "sendlast"} /\ out' = out
         BY <1>1, <2>2 DEF CRecv
-      <3> QED BY <3>1, <1>a DEF Live
+      <3>2. ASSUME cst' = "sendlast" PROVE Len(out) = N
+        <4>0. Live /\ Wn >= 1 /\ C = Len(out) /\ now \in W
+          BY <2>0, <2>2 DEF OInv, Live, C
+        <4>1. wst[now] = "exited"
+          BY <1>1, <2>2, <3>2 DEF CRecv, Gone
+        <4>2. ~(Item(now) <= Avail)
+          BY <4>0, <4>1, <2>0 DEF OInv, Holds
+        <4>3. Item(now) = Len(out) + 1
+          BY <4>0, <1>t, DistProps DEF Item
+        <4>4. Avail = N /\ N < Len(out) + 1
+          BY <4>0, <4>2, <4>3, <1>t DEF Avail
+        <4> QED BY <4>4, <1>t DEF OInv
+      <3> QED BY <3>1, <3>2, <1>a DEF Live
     <2>3. CASE Wn # 0 /\ fromW[now] # <<>>
       <3>0. Live /\ Wn >= 1 /\ C = Len(out) /\ now \in W /\ rxalive /\ nxt = Avail + 1
         BY <2>0, <2>3 DEF OInv, Live, C
@@ -106,7 +124,7 @@ LEMMA NextOInv == OInv /\ Inv /\ Inv' /\ [Next]_vars => OInv'
         BY <1>1, <2>3 DEF CRecv
       <3>2. Item(now) = Len(out) + 1 /\ Item(now) \in Nat
         BY <3>0, <1>t, DistProps DEF Item
-      <3>3. fromW[now] = <<Item(now)>> /\ toW[now] = <<>> /\ wst[now] = "recv"
+      <3>3. fromW[now] = <<Item(now)>> /\ toW[now] = <<>> /\ wst[now] = "recv" /\ Item(now) <= Avail
         BY <3>0, <2>0, <2>3 DEF OInv, Holds, Idle
       <3>4. Head(fromW[now]) = Len(out) + 1 /\ Tail(fromW[now]) = <<>>
         BY <3>2, <3>3, OneSeq
@@ -145,7 +163,9 @@ LEMMA NextOInv == OInv /\ Inv /\ Inv' /\ [Next]_vars => OInv'
         <4> QED BY <4>1, <4>2
       <3>10. nxt' = Avail' + 1 /\ rxalive' /\ now' \in W /\ Len(out') >= 1
         BY <3>0, <3>7, <2>0, <3>5, <1>t
-      <3> QED BY <3>1, <3>5, <3>6, <3>9, <3>10 DEF OInv
+      <3>11. Len(out') <= N /\ cst' \notin {"sendlast", "ended"}
+        BY <3>1, <3>2, <3>3, <3>5, <3>0, <1>t DEF Avail
+      <3> QED BY <3>1, <3>5, <3>6, <3>9, <3>10, <3>11 DEF OInv
     <2> QED BY <2>1, <2>2, <2>3
   <1>2. CASE CSend
     <2>0. cst \in {"send", "sendlast"} /\ UNCHANGED <<fromW, wst, witem, out, rxalive, Panics, DropAfter>>
@@ -155,7 +175,9 @@ LEMMA NextOInv == OInv /\ Inv /\ Inv' /\ [Next]_vars => OInv'
     <2>1. CASE cst = "sendlast"
       <3>1. cst' = "ended"
         BY <1>2, <2>1 DEF CSend
-      <3> QED BY <3>1, <2>0, <1>a DEF Live
+      <3>2. Len(out) = N
+        BY <2>1 DEF OInv
+      <3> QED BY <3>1, <3>2, <2>0, <1>a DEF Live
     <2>2. CASE cst = "send" /\ cst' # "idle"
       <3>1. cst' = "drop"
         BY <1>2, <2>2 DEF CSend
@@ -355,12 +377,12 @@ LEMMA NextOInv == OInv /\ Inv /\ Inv' /\ [Next]_vars => OInv'
     BY <1>8 DEF OInv, vars, Order, Live, C, Avail, Item, Dist, Holds, Idle
   <1> QED BY <1>1, <1>2, <1>3, <1>4, <1>5, <1>6, <1>7, <1>8 DEF Next, Consumer, Worker
 
-THEOREM OrderForAllInputs == Spec => []Order
+THEOREM OrderForAllInputs == Spec => [](Order /\ NoSilentTruncation)
   <1>1. Spec => []Inv
     BY InitInv, NextInv, PTL DEF Spec
   <1>2. Spec => [](Inv /\ OInv)
     BY <1>1, InitInv, InitOInv, NextInv, NextOInv, PTL DEF Spec
-  <1>3. OInv => Order
-    BY DEF OInv
+  <1>3. OInv => Order /\ NoSilentTruncation
+    BY DEF OInv, NoSilentTruncation
   <1> QED BY <1>2, <1>3, PTL
 ===============================================================================
